@@ -228,7 +228,14 @@ pub fn unflatten(c: &mut HashMap<String, Map<String, Value>>, value: &Value) -> 
                                             if let Some(item) = unflatten(c, &Value::from(o)) {
                                                 array.push(item);
                                             }
+                                        } else if uuid.starts_with(STRING_ESCAPE_PREFIX) {
+                                            // An (escaped) string element, not a reference
+                                            array.push(Value::from(unescape(uuid)));
                                         }
+                                    } else if let Some(item) = unflatten(c, uuid) {
+                                        // Elements that are not references (numbers, booleans,
+                                        // null, nested arrays) are kept as they are
+                                        array.push(item);
                                     }
                                 }
                                 Some(Value::from(array))
